@@ -73,23 +73,43 @@ class LedgerGen:
         fill = fill or b""
         return m + self.filler[:lenmod - len(fill)] + fill[:lenmod] if lenmod else m
 
-    def edge_keysets(self, rng, edge_bytes):
-        """wallets (differing in the last key only) whose public-keys hash starts / ends with
-        each of ``edge_bytes``: name -> (wallet list, keys hash)"""
-        need = {("first", b) for b in edge_bytes} | {("last", b) for b in edge_bytes}
-        out = {"base": (self.wallet, self.keys_hash)}
-        tries = 0
-        while need:
-            tries += 1
-            if tries > 20000:
-                raise RuntimeError("edge_keysets: search does not terminate")
-            k = k1.Key.from_rng(rng)
-            w = self.wallet[:-1] + [k]
-            h = L.pubkeys_hash({p: x.pub65 for p, x in zip(L.PATHS, w)})
-            for pos, b in ((("first", h[0]), ("last", h[-1]))):
-                if (pos, b) in need:
-                    need.discard((pos, b))
-                    out["kh-%s-%02x" % (pos, b)] = (w, h)
+    def edge_keysets(self, rng, edge_bytes, edge_pairs=()):
+        """Key sets: name -> (paths, wallet, keys hash carried by the device's message).
+        * wallets (differing in the last key only) whose public-keys hash starts / ends with each
+          of ``edge_bytes``, or starts with a two-byte prefix matched by ``edge_pairs``
+          (name -> predicate on the digest);
+        * a wider set whose paths sort differently as strings and as numbers (60' / 137',
+          9' / 10'): once with the documented (lexicographic) hash, once with the hash taken in
+          numeric component order."""
+        out = {"base": (L.PATHS, self.wallet, self.keys_hash)}
+        import hashlib
+        h = hashlib.sha256()
+        for k in self.wallet[:-1]:
+            h.update(k.pub65)
+        wanted = {}
+        for b in edge_bytes:
+            wanted["kh-first-%02x" % b] = lambda dg, b=b: dg[0] == b
+            wanted["kh-last-%02x" % b] = lambda dg, b=b: dg[-1] == b
+        wanted.update(edge_pairs)
+        for name, (d, dg) in k1.search_last_key(h, rng.bytes, wanted).items():
+            w = self.wallet[:-1] + [k1.Key(d)]
+            if L.pubkeys_hash({p: x.pub65 for p, x in zip(L.PATHS, w)}) != dg:
+                raise RuntimeError("edge_keysets: libsecp256k1 and ecdsa disagree on a key")
+            out[name] = (L.PATHS, w, dg)
+        paths = L.PATHS + ["m/44'/60'/0'/0/0", "m/44'/9'/0'/0/0", "m/44'/10'/0'/0/0"]
+        wallet = self.wallet + [k1.Key.from_rng(rng) for _ in range(3)]
+        keymap = {p: k.pub65 for p, k in zip(paths, wallet)}
+        import re
+
+        def numeric(p):
+            return [int(c) if c.isdecimal() else c for c in re.split(r"(\d+)", p)]
+        hn = hashlib.sha256()
+        for p in sorted(paths, key=numeric):
+            hn.update(keymap[p])
+        if sorted(paths, key=numeric) == sorted(paths):
+            raise RuntimeError("the wide key set does not tell the two orders apart")
+        out["wide-lexicographic"] = (paths, wallet, L.pubkeys_hash(keymap))
+        out["wide-numeric"] = (paths, wallet, hn.digest())
         return out
 
     # -- certificate ----------------------------------------------------------------
@@ -151,10 +171,10 @@ class LedgerGen:
                               bytes.fromhex(e[target]["tweak"])))
 
 
-def pubkeys_variants(gen, wallet=None):
+def pubkeys_variants(gen, wallet=None, paths=None):
     """name -> (file text | None for 'no such file', reference key map | None, open?)
     The key map is what the file means: path -> raw key bytes."""
-    paths = L.PATHS
+    paths = paths or L.PATHS
     wallet = wallet or gen.wallet
     base = {p: k.pub65 for p, k in zip(paths, wallet)}
 
@@ -167,7 +187,7 @@ def pubkeys_variants(gen, wallet=None):
     out["compressed"] = (dump(comp.items()), comp, False)
     out["reordered"] = (dump(list(base.items())[::-1]), dict(base), False)
     mixed = {p: (k.pub33 if i % 2 else k.pub65) for i, (p, k) in enumerate(zip(paths, wallet))}
-    order = [3, 0, 5, 1, 4, 2]
+    order = [3, 0, 5, 1, 4, 2] + list(range(6, len(paths)))[::-1]
     out["mixed-shuffled"] = (dump([(paths[i], mixed[paths[i]]) for i in order]), mixed, False)
     out["uppercase-hex"] = (dump(base.items(), lambda p, b: b.hex().upper()), dict(base), False)
     d = dict(base)
